@@ -16,6 +16,7 @@
 #include <set>
 
 #include <sys/personality.h>
+#include <sys/resource.h>
 #include <sys/wait.h>
 #include <unistd.h>
 
@@ -595,6 +596,7 @@ ChildResult spawn_run(char** argv, const std::string& planfile, bool trace, uint
       dup2(fd[1], 1);
       close(fd[1]);
       personality(ADDR_NO_RANDOMIZE); // best effort
+      { struct rlimit rl; rl.rlim_cur = 300; rl.rlim_max = 330; setrlimit(RLIMIT_CPU, &rl); } // a run that spins without reaching an instrumented event ends with SIGXCPU (CPU time, not wall time)
       const char* args[8] = {argv[0], argv[1], argv[2], "--exec-one", planfile.c_str(), trace ? "--trace" : nullptr, nullptr, nullptr};
       execv("/proc/self/exe", (char* const*)args);
       _exit(127);
